@@ -19,6 +19,9 @@ class C13(Machine):
 
     def gen_params(self, sc, rng):
         sc["params"] = {"len": rng.randint(2, 10), "p_fault": rng.choice([0.0, 0.0, 0.1, 0.25])}
+        if rng.random() < 0.04:
+            sc["params"]["mode"] = "sanitize"
+            return
         if rng.random() < 0.5:
             sc["config"] = gen_knobs(rng, p=0.4)
         if rng.random() < 0.4:
@@ -28,6 +31,57 @@ class C13(Machine):
 
     def setup(self, world, sc):
         return {"params": sc["params"], "max_ratio": 0.0}
+
+    # name sanitisation is a public, documented preparation step (petri_net_translation.
+    # sanitize_network_names); it contains a retry loop whose termination depends on the names
+    CLASH_POOLS = [["g[", "g]", "g{", "g}"], ["_g_", "g_", "g{", "g("], ["x_", "x[", "_x_", "x]"], ["a.b", "a b", "a-b", "a_b", "_a_b"]]
+
+    def sanitize_scenario(self, sc):
+        import random
+
+        from ..machine import finish, new_result
+        from ..ops import World
+        from ..seams import CLOCK, WorkBudgetExceeded
+        from .. import seams
+
+        res = new_result(sc)
+        rng = random.Random(sc["run_seed"])
+        pool = list(rng.choice(self.CLASH_POOLS))
+        rng.shuffle(pool)
+        names = pool[: rng.randint(2, len(pool))] + (["plain"] if rng.random() < 0.5 else [])
+        seams.install()
+        from biodivine_aeon import BooleanNetwork
+        from biobalm.petri_net_translation import sanitize_network_names
+
+        vio = []
+        CLOCK.start(200_000)
+        try:
+            try:
+                bn = BooleanNetwork(names)
+            except Exception:  # noqa: BLE001  AEON rejects the names: nothing to test
+                bn = None
+            if bn is not None:
+                try:
+                    out = sanitize_network_names(bn)
+                    got = out.variable_names()
+                    import re as _re
+
+                    if len(set(got)) != len(names) or not all(_re.match("^[a-zA-Z0-9_]+$", g) for g in got):
+                        vio.append(viol(self.ID, "sanitize_names_not_distinct_and_safe", 1, {"names": names, "sanitized": got}, "sanitize"))
+                except WorkBudgetExceeded as e:
+                    vio.append(viol(self.ID, "work_budget_exceeded", 1, {"op": {"op": "sanitize", "names": names}, "where": e.where}, "sanitize"))
+                except Exception:  # noqa: BLE001  a clean refusal is a terminating outcome
+                    pass
+        finally:
+            work = CLOCK.stop()
+        w = World(sc["net"], None, None, None, budget=True)
+        res["violations"] = vio
+        finish(res, w, sc, [{"op": "sanitize", "names": names}])
+        res["stats"]["op_kinds"] = ["sanitize:" + ("budget_exceeded" if vio else "ok")]
+        res["stats"]["work"] = work
+        res["nontrivial"] = True
+        res["case_key"] = "sanitize/" + "|".join(names)
+        return res
 
     def choose(self, world, st, rng, step):
         p = st["params"]
@@ -47,6 +101,8 @@ class C13(Machine):
         return [viol(self.ID, "work_budget_exceeded", step, {"op": op, "where": out.get("where"), "work": out.get("work"), "nodes": len(world.sd), "n": world.ref.n}, site=op["op"])]
 
     def run(self, sc):
+        if sc.get("params", {}).get("mode") == "sanitize":
+            return self.sanitize_scenario(sc)
         res = super().run(sc)
         # construction overrun is also a C13 violation
         if res.get("construct_cls") == "budget_exceeded" and not res["violations"]:
